@@ -15,6 +15,7 @@ inductive MStmt.FragL : MStmt → Prop
   | frag {st} (h : st.Frag) : FragL st
   | forInt (b w e f) : FragL (.forInt b w e f)
   | forSub (b f t) : FragL (.forSub b f t)
+  | ifNonZero (f b w e) : FragL (.ifNonZero f [.int b w e f])
 
 /-- the slots a statement of the loop fragment contributes -/
 def MStmt.slotsL : MStmt → List Slot
@@ -26,6 +27,7 @@ def MStmt.slotsL : MStmt → List Slot
   | .sub b f t => [.sub b f t none]
   | .forInt b w e f => [.ints b w e f none]
   | .forSub b f t => [.subs b f t none none]
+  | .ifNonZero f [.int b w e _] => [.opt b w e f none]
   | _ => []
 
 theorem bind_ok' {α β} {x : Outcome α} {f : α → Outcome β} {y : β}
@@ -34,6 +36,26 @@ theorem bind_ok' {α β} {x : Outcome α} {f : α → Outcome β} {y : β}
   | ok a => exact ⟨a, rfl, h⟩
   | err => cases h
   | panic => cases h
+
+theorem layoutML_ifNonZero {f : String} {body r : List MStmt} {m : List Slot}
+    (h : layoutML (.ifNonZero f body :: r) = some m) :
+    ∃ b w e, body = [.int b w e f] ∧ ∃ m', layoutML r = some m' ∧ m = .opt b w e f none :: m' := by
+  cases body with
+  | nil => simp [layoutML] at h
+  | cons x t =>
+    cases t with
+    | cons y t' => simp [layoutML] at h
+    | nil =>
+      cases x <;> try (simp [layoutML] at h; done)
+      rename_i b w e g
+      simp only [layoutML] at h
+      split at h
+      · rename_i hfg
+        subst hfg
+        simp only [Option.map_eq_some_iff] at h
+        obtain ⟨m', h1, h2⟩ := h
+        exact ⟨b, w, e, rfl, m', h1, h2.symm⟩
+      · cases h
 
 theorem layoutML_cons {st : MStmt} {r : List MStmt} {m : List Slot} (h : layoutML (st :: r) = some m) :
     st.FragL ∧ ∃ m', layoutML r = some m' ∧ m = st.slotsL ++ m' := by
@@ -46,6 +68,9 @@ theorem layoutML_cons {st : MStmt} {r : List MStmt} {m : List Slot} (h : layoutM
     simp only [layoutML, Option.map_eq_some_iff] at h
     obtain ⟨m', h1, h2⟩ := h
     exact ⟨.forSub b f t, m', h1, by simp [MStmt.slotsL, ← h2]⟩
+  case ifNonZero f body =>
+    obtain ⟨b, w, e, rfl, m', h1, h2⟩ := layoutML_ifNonZero h
+    exact ⟨.ifNonZero f b w e, m', h1, by simp [MStmt.slotsL, h2]⟩
   all_goals
     simp only [layoutML, Option.map_eq_some_iff] at h
     first
@@ -77,6 +102,13 @@ theorem runMStmt_frameL (C : Codecs) (andx : Bool) (s s' : MState) (st : MStmt) 
     obtain ⟨bs, _, hs⟩ := bind_ok' h
     cases hs
     cases b <;> rfl
+  | ifNonZero g b w e =>
+    rw [runMStmt] at h
+    obtain ⟨x, hx, hif⟩ := bind_ok' h
+    split at hif
+    · simp only [runMStmts, runMStmt, hx, Outcome.bind_ok, Outcome.pure_eq, Outcome.ok.injEq] at hif
+      subst hif; cases b <;> rfl
+    · cases hif; rfl
 
 theorem runMStmts_frameL (C : Codecs) (andx : Bool) (stmts : List MStmt) :
     ∀ (m : List Slot) (s s' : MState), layoutML stmts = some m →
@@ -164,6 +196,7 @@ theorem runMStmts_layoutL {C : Codecs} {T : String → Prop} (hC : LawfulCodecs 
       | frag hfrag => cases hfrag <;> simp [intsFit] at hfit <;> first | exact hfit.2 | exact hfit
       | forInt b w e f => simp [intsFit] at hfit; exact hfit.2
       | forSub b f t => simpa [intsFit] using hfit
+      | ifNonZero f b w e => simp [intsFit] at hfit; exact hfit.2
     obtain ⟨hP, hD, hH, hS⟩ := ih m' s1 s' hl' hst.2 hT' hTl' h hfit'
     have hframe := fun f => runMStmts_frameL C andx r m' s1 s' hl' h f
     cases hfragL with
@@ -202,6 +235,39 @@ theorem runMStmts_layoutL {C : Codecs} {T : String → Prop} (hC : LawfulCodecs 
       intro sl hsl
       rcases List.mem_cons.mp hsl with rfl | hsl
       · exact ⟨vs, hget, hTl b f t (List.mem_cons_self ..), henc⟩
+      · exact hS sl hsl
+    | ifNonZero f b w e =>
+      simp only [MStmt.slotsL, List.cons_append, List.nil_append] at hm; subst hm
+      rw [runMStmt] at h1
+      obtain ⟨x, hg, hif⟩ := bind_ok' h1
+      have hst1 := hst.1; simp only [emittedField] at hst1
+      have hx : x < 256 ^ w := by
+        have hs1 : s1.env.get f = some (.n x) := by
+          split at hif
+          · simp only [runMStmts, runMStmt, hg, Outcome.bind_ok, Outcome.pure_eq, Outcome.ok.injEq] at hif
+            subst hif; cases b <;> exact getN_ok hg
+          · cases hif; exact getN_ok hg
+        have hget : s'.env.get f = some (.n x) := by rw [hframe f hst1]; exact hs1
+        simp [intsFit, hget] at hfit; exact hfit.1
+      have hbytes : ∃ bytes, s1.P = (s.app b bytes).P ∧ s1.D = (s.app b bytes).D ∧ s1.head = s.head ∧
+          s1.env.get f = some (.n x) ∧ bytes = (if x = 0 then [] else intBytes w e x) := by
+        by_cases hx0 : x = 0
+        · subst hx0
+          simp only [bne_self_eq_false, Bool.false_eq_true, ↓reduceIte, Outcome.pure_eq, Outcome.ok.injEq] at hif
+          subst hif
+          exact ⟨[], by cases b <;> simp [MState.app], by cases b <;> simp [MState.app], rfl, getN_ok hg, by simp⟩
+        · have hne : (x != 0) = true := by simpa using hx0
+          simp only [hne, ↓reduceIte, runMStmts, runMStmt, hg, Outcome.bind_ok, Outcome.pure_eq, Outcome.ok.injEq] at hif
+          subst hif
+          exact ⟨intBytes w e x, rfl, rfl, by cases b <;> rfl, by cases b <;> exact getN_ok hg, by simp [hx0]⟩
+      obtain ⟨bytes, e1, e2, e3, hs1, hb⟩ := hbytes
+      have hget : s'.env.get f = some (.n x) := by rw [hframe f hst1]; exact hs1
+      obtain ⟨g1, g2⟩ := layout_step C s'.env b (.opt b w e f none) rfl m' s _ s' bytes e1 e2 hP hD
+        (by simp [slotBytes, hget, hb])
+      refine ⟨g1, g2, by rw [hH, e3], ?_⟩
+      intro sl hsl
+      rcases List.mem_cons.mp hsl with rfl | hsl
+      · exact ⟨x, hget, hx⟩
       · exact hS sl hsl
     | frag hfrag =>
     cases hfrag <;> rw [runMStmt] at h1 <;> simp only [MStmt.slotsL, List.nil_append, List.cons_append] at hm <;> subst hm
